@@ -342,6 +342,8 @@ Props ==
        \* ---- C09
        /\ Chk(FlagsMatchJobs, r, "C09.FlagsMatchJobs")
        /\ Chk(NeverStuck, r, "C09.Stuck")
+       \* at rest the converter work for the attached tags is done (the same fact as C16.ConvEventually, claimed by C09 too)
+       /\ Chk(ConvEventually, r, "C09.ConverterWorkDone")
        \* the deterministic settle policy (always take the next job step) did not come to rest within the step budget
        /\ ChkI(r.ev.a # "SettleExhausted", r, "C09.Settles", KindsOf({t \in DOMAIN tags : tags[t].U # {}}))
 
